@@ -458,7 +458,7 @@ fn random_segs(rng: &mut Rng) -> Value {
     for _ in 0..n {
         let k = *rng.pick(&["zlib", "gzip", "zip", "idat"]);
         match rng.below(10) {
-            0..=2 => segs.push(json!({"c":"junk","n":*rng.pick(&[0u64, 1, 2, 3, 4, 5, 17, 300, 5000])})),
+            0..=2 => segs.push(json!({"c":"junk","n":*rng.pick(&[0u64, 1, 2, 3, 4, 5, 17, 300, 5000, 5000, 65534, 65536, 131072])})),
             3..=4 => {
                 let why = match k {
                     "gzip" => *rng.pick(&["method", "fextra-past-eof", "name-past-eof", "comment-past-eof", "block"]),
@@ -512,6 +512,20 @@ pub fn record(args: &Args) -> i32 {
         }
         builts.push(b);
     }
+    // literal runs whose length sits on the copy buffer's size (64 KiB) and its neighbours, alone
+    // and with the header / trailer bytes of a wrapper counted in
+    for l in [65535u64, 65536, 65537, 131072, 196608] {
+        builts.push(build_file(&json!([{"c":"junk","n":l}]), &big, &small, &mut rng));
+    }
+    let wrap = |k: &str, s: u64| json!({"c":"wrap","k":k,"big":true,"s":s,"hdr":1,"flags":0,"x":0,"nm":0,"cm":0,"sizes":[],"trail":0});
+    for (k, hdr) in [("zlib", 2u64), ("gzip", 10), ("zip", 30), ("idat", 0)] {
+        for mult in [1u64, 2] {
+            builts.push(build_file(&json!([{"c":"junk","n":65536 * mult - hdr}, wrap(k, 3)]), &big, &small, &mut rng));
+            builts.push(build_file(&json!([wrap(k, 5), {"c":"junk","n":65536 * mult}]), &big, &small, &mut rng));
+        }
+    }
+    builts.push(build_file(&json!([wrap("zlib", 7), {"c":"junk","n":65536 - 4}]), &big, &small, &mut rng));
+    builts.push(build_file(&json!([wrap("gzip", 7), {"c":"junk","n":65536 - 8}]), &big, &small, &mut rng));
     if args.get("samples").is_some() {
         for name in ["samplezip.zip", "sample1.bin.gz", "treegdi.png", "samplepptx.pptx", "skiplengthcrash.bin", "starcontrol.samplesave"] {
             if let Ok(bytes) = std::fs::read(format!("/repo/samples/{}", name)) {
